@@ -166,6 +166,20 @@ CLAIMED["C13"] = dict(
     technique="Lean 4 reference interpreter + theorems (projection laws, operator identities, slice rule = implementation arithmetic) + differential search",
     design="§5 C13")
 
+CLAIMED["C18"] = dict(
+    text="Lean 4 proofs over a model of the CSV field layer (write_string_value/escape_string; parser states unquoted_string, quoted_string, "
+         "escaped_value): for all delimiter/quote/escape characters that can be told apart, quote styles minimal/all/nonnumeric and all byte strings, the "
+         "written field is read back exactly and the scan stops at the terminator; fields with a delimiter, quote or line break are quoted; whole records "
+         "round-trip. Tie in both directions: the encoder model reproduces the real encoder's text byte for byte on generated tables, the parser model "
+         "reads arbitrary texts over the significant characters exactly like the real parser. Round-trip streams on the real code: tables (arrays of "
+         "arrays, arrays of objects, column objects; strings with delimiters, quotes, line breaks, outer blanks, empties, scalars) x delimiter x quote x "
+         "escape x style x line ending x inference; JSON values x TOON indent/delimiter.",
+    note="Partial: TOON has no Lean model (round trip observed on the real code only) and three structural TOON defects plus one CSV limitation are "
+         "recorded as known findings (D44, D51, D52, D53); record assembly, headers and type inference are checked, not proved; an input ending inside a "
+         "quoted field is outside the parser model. Found and fixed: D12 D43 D45 D46 D49 D50 D56.",
+    technique="Lean 4 theorems (CSV field and record round trip for all contents and option characters) + two-way differential tie + round-trip streams",
+    design="§5 C18")
+
 ALL = ["C%02d" % i for i in range(1, 21)]
 NOT_YET = "not claimed yet: the Lean model, theorems and correspondence harness for this property are still being built (see DESIGN.md §8 staging)"
 
